@@ -35,25 +35,25 @@ import (
 )
 
 type Check struct {
-	ID         string   `json:"id"`
-	Pkg        string   `json:"pkg"`   // repo-relative package directory the harness is injected into
-	Run        string   `json:"run"`   // test function
-	Files      []string `json:"files"` // harness files (relative to /verif/harness/<pkg>/)
-	Level      string   `json:"level"`
-	Engine     string   `json:"engine"`
-	Technique  string   `json:"technique"`
-	Shards     int      `json:"shards"`
-	Instrument []string `json:"instrument"` // repo package dirs to rewrite onto the virtual runtime
-	InstrOpts  map[string]any `json:"instr_opts"`
-	Race       bool     `json:"race"`
-	KeepTests  bool     `json:"keep_repo_tests"` // do not mask the repo's own _test.go files
-	BudgetQ    int      `json:"budget_quick_s"`
-	BudgetT    int      `json:"budget_thorough_s"`
-	Confirm    bool     `json:"confirm_by_replay"`
-	Assume     []string `json:"assumptions"`
-	MemMB      int      `json:"mem_mb"` // ulimit -v per shard (0 = default 8192)
+	ID         string            `json:"id"`
+	Pkg        string            `json:"pkg"`   // repo-relative package directory the harness is injected into
+	Run        string            `json:"run"`   // test function
+	Files      []string          `json:"files"` // harness files (relative to /verif/harness/<pkg>/)
+	Level      string            `json:"level"`
+	Engine     string            `json:"engine"`
+	Technique  string            `json:"technique"`
+	Shards     int               `json:"shards"`
+	Instrument []string          `json:"instrument"` // repo package dirs to rewrite onto the virtual runtime
+	InstrOpts  map[string]any    `json:"instr_opts"`
+	Race       bool              `json:"race"`
+	KeepTests  bool              `json:"keep_repo_tests"` // do not mask the repo's own _test.go files
+	BudgetQ    int               `json:"budget_quick_s"`
+	BudgetT    int               `json:"budget_thorough_s"`
+	Confirm    bool              `json:"confirm_by_replay"`
+	Assume     []string          `json:"assumptions"`
+	MemMB      int               `json:"mem_mb"`     // ulimit -v per shard (0 = default 8192)
 	ExtraDirs  map[string]string `json:"extra_dirs"` // additional harness dir -> repo pkg dir injections
-	Env        []string `json:"env"`
+	Env        []string          `json:"env"`
 }
 
 type Finding struct {
